@@ -214,6 +214,13 @@ def pair_laws(ctx, st, S, T, want_sym=False):
     sc = 1e-12 * (abs(c) + a * (FAR + 3))
     if not (is_num(b2) and is_num(w2)) or abs(b2 - a * b) > sc * 4 or abs(w2 - a * w) > wtol(a * w) + sc * (len(X) + len(Y)):
         bad("affine-equivariance", "value is not |a| * d after x -> a*x + c on both diagrams", [b2, w2], [a * b, a * w])
+    # variant 3 (smaller strata): tiny numeric scale, both distances must scale linearly
+    if k <= 8:
+        t = 2.0 ** -43
+        b4, w4 = dists(ctx, [[t * p[0], t * p[1]] for p in X], [[t * p[0], t * p[1]] for p in Y])
+        ctx.valid()
+        if not (is_num(b4) and is_num(w4)) or b4 != t * b or abs(w4 - t * w) > WTOL * t * max(1.0, w):
+            bad("tiny-scale", "value is not c * d after scaling both diagrams by c = 2^-43", [b4, w4], [t * b, t * w])
     if want_sym:
         b3, w3 = dists(ctx, Y, X)
         ctx.valid()
